@@ -1,7 +1,7 @@
 import json, os, re
 
 SPEC = {
-    "lean_modules": ["SemaModel.C17.Props", "SemaModel.C17.Tie", "SemaModel.ClusterCompose.Props"],
+    "lean_modules": ["SemaModel.C17.Props", "SemaModel.C17.Tie", "SemaModel.C17.TieSort", "SemaModel.ClusterCompose.Props"],
     "lean_dirs": ["SemaModel/C17", "SemaModel/ClusterCompose"],
     # modules of the list outside SemaModel/C17 are the cluster COMPOSITION (C13 + C14 + C15 + C16 + C17): when they no longer build because a proof
     # obligation of ANOTHER property broke (its own check reports that), this check notes it and goes on with its own modules (verifcore/blame.py)
@@ -10,7 +10,7 @@ SPEC = {
     "harness_args": {"quick": ["-n", 400, "-big", 15, "-curate", 3000, "-fault", 24, "-cluster", 16], "thorough": ["-n", 3000, "-big", 100, "-curate", 50000, "-fault", 160, "-cluster", 150]},
     "timeout": {"quick": 900, "thorough": 3000},
     "level": "proof",
-    "tie": "T1: cluster/actions.go curateFailedPoints is translated to SemaModel/Generated/Curate.lean on every run (slices.SortFunc abstract, slices.BinarySearchFunc = Go.binarySearchFunc of Base/GoRt.lean); C17_tie proves that the model's curateWith / binarySearch compute the same for all inputs (uuids read as big-endian numbers). T3: go/cmd/c17 builds fresh clusters of 1..3 real in-process servers (NewNode + Serve on loopback) with small per-shard point limits (1..8 shards per collection), drives insert / update / delete / search through every live entry node, stops one server in many scenarios, and runs the Lean model on the same op lines; what is an oracle for the model (placement of inserted points, each shard's answer to a query) is read from the shards directly; the property oracles are evaluated on the real responses; the real curateFailedPoints is also called directly through cluster/verif_export.go; fault scenarios (go/cmd/c17/fault.go, faultnet.go): real nodes whose RPC service runs on a transport the harness controls (requests swallowed past the time-out, connections killed mid-call / during the back-off / while idle so that the caller's cached client is shut down, dials refused), RpcRetries 1..3, update / delete / search and single calls of the real internalRoute under those scripts, with 'which shard's handler completed' measured by a recorder in front of the handlers and the Lean model of the retry loop run on the scripted event list. T2: the control skeleton of internalRoute's retry loop (Generated/FactsC17.routeSkeleton); Generated/FactsC17.lean pins the constants (as float32 bit patterns, used by the driver) and the expression text of the per-shard limit, the offset rule, the cut and the score comparison of ClusterNode.SearchPoints",
+    "tie": "T1: cluster/actions.go curateFailedPoints is translated to SemaModel/Generated/Curate.lean on every run (slices.SortFunc abstract, slices.BinarySearchFunc = Go.binarySearchFunc of Base/GoRt.lean); C17_tie proves that the model's curateWith / binarySearch compute the same for all inputs (uuids read as big-endian numbers). T3: go/cmd/c17 builds fresh clusters of 1..3 real in-process servers (NewNode + Serve on loopback) with small per-shard point limits (1..8 shards per collection), drives insert / update / delete / search through every live entry node, stops one server in many scenarios, and runs the Lean model on the same op lines; what is an oracle for the model (placement of inserted points, each shard's answer to a query) is read from the shards directly; the property oracles are evaluated on the real responses; the real curateFailedPoints is also called directly through cluster/verif_export.go; fault scenarios (go/cmd/c17/fault.go, faultnet.go): real nodes whose RPC service runs on a transport the harness controls (requests swallowed past the time-out, connections killed mid-call / during the back-off / while idle so that the caller's cached client is shut down, dials refused), RpcRetries 1..3, update / delete / search and single calls of the real internalRoute under those scripts, with 'which shard's handler completed' measured by a recorder in front of the handlers and the Lean model of the retry loop run on the scripted event list. T1 (merge comparator): ClusterNode.SearchPoints orders the concatenated shard answers with utils.SortSearchResults(results, sr.Sort) (pinned: Generated/FactsC17.mergeSkeleton); the model's comparator leKeys is C06's sortCmp over cmpAny (imported from SemaModel/C06/Model.lean, not copied: every integer width and signedness, float32/float64 incl. NaN, -0, Inf, strings, nil, bool, slices, maps), and C17_tie_merge_cmp / C17_tie_merge_sorted / C17_tie_merge_isort (SemaModel/C17/TieSort.lean over C06_tie_sortCmp) prove that the comparison closure of the function translated from utils/compare.go on every run (Generated/Compare.lean) is that comparator and that its output is sortCmp-ordered; utils.CompareAny itself (reflect) is compared with cmpAny on the search lines of this stream (sort properties whose values mix kinds across points and shards the way MessagePack produces them, go/cmd/c17/mixed.go) and on the cmp lines of the C06 stream. T2: the control skeleton of internalRoute's retry loop (Generated/FactsC17.routeSkeleton); Generated/FactsC17.lean pins the constants (as float32 bit patterns, used by the driver) and the expression text of the per-shard limit, the offset rule, the cut and the score comparison of ClusterNode.SearchPoints",
     "required_theorems": [
         "Sema.C17.C17_curate", "Sema.C17.C17_binarySearch", "Sema.C17.C17_curate_mergeSort", "Sema.C17.C17_curate_precondition",
         "Sema.C17.C17_failed_update", "Sema.C17.C17_failed_delete", "Sema.C17.C17_failed_message",
@@ -32,6 +32,9 @@ SPEC = {
         "Sema.ClusterCompose.Cluster_sync_add", "Sema.ClusterCompose.Cluster_sync_remove", "Sema.ClusterCompose.Cluster_sync_side",
         # the chain Go source -> generated definition -> model -> specification closed: C17_tie composed with the specification
         "Sema.C17.C17_tie_curate", "Sema.C17.C17_curate_generated",
+        # the comparator of the merge on sort keys IS C06's sortCmp over cmpAny (all kinds msgpack decodes into); its tie to utils/compare.go
+        "Sema.C17.C17_search_multi", "Sema.C17.C17_search_keys", "Sema.C17.C17_merge_cmp_preorder", "Sema.C17.C17_merge_keys", "Sema.C17.C17_merge_missing_last", "Sema.C17.C17_merge_numeric",
+        "Sema.C17.C17_tie_merge_cmp", "Sema.C17.C17_tie_merge_sorted", "Sema.C17.C17_tie_merge_isort",
     ],
     "trusted_base": [
         "SemaModel/ClusterCompose/Model.lean (the composed cluster model: per server a node database and a shard store, the operations of cluster/actions.go written over C13.owner, C15.distribute / overQuota, C16.key / scanPrefix, C17.updatePoints / deletePoints / searchPoints; C14's St / round for Sync) is tied to the code by a second correspondence run: the compiled composed model (`semadriver C17 cluster`) answers the op lines of go/cmd/c17/compose.go — 1..3 real in-process servers, every node configured with its own permutation of the server list, several tenants whose ids are prefixes of each other, create / insert / update / delete / get / drop through every node — and a dump of EVERY node (the records of its node database, every shard directory on its disk with its points) after every few calls; the abstract hash of the theorems is instantiated by the real one (score lines: xxhash.Sum64String(key + server) for every routed key and server); the shard uuids RPCCreateShard draws are read back and passed to the model; not in this stream: search (the main stream covers the merge), Sync (C14's harness), refused shard batches, failures",
@@ -42,7 +45,7 @@ SPEC = {
         "fault scenarios: a request swallowed by a stalled connection is never delivered later (the harness only ends a stall by killing the connection), so 'handler completed' = 'delivered and answered'",
         "float32 arithmetic of the per-shard limit is evaluated by Lean's Float32 (IEEE single) in the driver; the theorems hold for every heuristic function",
         "uuid order (bytes.Compare) is abstracted to a linear order on id tokens; curateFailedPoints' result does not depend on it (C17_curate)",
-        "values of sort properties are int64 or string after msgpack decoding (what the harness stores); other reflect kinds of utils.CompareAny are not modelled",
+        "utils.CompareAny (reflect-based) = Sema.C06.cmpAny: not translated; compared on every search line whose sort properties mix kinds (int8..int64, uint8..uint64, float32/64 incl. -0, Inf, NaN, strings, nil, bool, []any, []byte, maps; nested paths) through the merged order the model predicts, and judged independently of both by the harness's reference order (exact rationals, math/big); float semantics as in C06's trusted base (a float64 bit pattern denotes m * 2^(e-1075), validated against Go on C06's cmp lines)",
     ],
     "assumptions": ["point ids are unique per collection (the API's requirement; stated in the property)",
                     "the composition (SemaModel/ClusterCompose): all servers up and every RPC delivered and answered; requests one at a time; user ids without '/'; every insert satisfies InsertOK (ids new to the collection, C15's fits, fresh shard uuids); NoTies on the routed keys; Sync: no client traffic and no failure during the round, every server that holds something is started",
